@@ -12,7 +12,7 @@ git -C "$wt" apply "$d/patch.diff" || { echo "$id patch-does-not-apply"; git -C 
 mut=$(run_demo mutant)
 tests="skipped"
 if [ -z "${NOTESTS:-}" ]; then
-  (cd "$wt" && PYTHONPATH="$wt/src" timeout 3000 /venv/bin/python -m pytest -q -p no:cacheprovider --timeout=900 --continue-on-collection-errors -n 5 --junitxml=/tmp/vs-$id-junit.xml >/dev/null 2>&1)
+  (cd "$wt" && OMP_NUM_THREADS=2 MKL_NUM_THREADS=2 OPENBLAS_NUM_THREADS=2 PYTHONPATH="$wt/src" timeout 3000 /venv/bin/python -m pytest -q -p no:cacheprovider --timeout=900 --continue-on-collection-errors -n 5 --junitxml=/tmp/vs-$id-junit.xml >/dev/null 2>&1)
   tests=$(python3 /verif/tools/check_baseline.py /tmp/vs-$id-junit.xml 2>&1 | tail -1)
   rm -f /tmp/vs-$id-junit.xml
 fi
